@@ -495,6 +495,16 @@ class ProtocolMonitor(Monitor):
         if set(tgt["targets"]) == old_t:
             ctx.violation("same-target", f"target(same atoms) on {ch} inserted a retarget slot", "same-target-inserts")
         lo, hi = pending_fall_bounds(cpre)
+        if lo > chan_end(cpre):
+            k = 0
+            for s_ in reversed(cpre["slots"]):
+                if s_["kind"] != "delay":
+                    break
+                k += 1
+            if k:
+                ctx.count("retarget_fall_pending_behind_delays")
+            if k >= 2:
+                ctx.count("retarget_fall_pending_behind_several_delays")
         if tgt["ti"] < lo:
             ctx.violation("retarget-fall", f"{ch}: retarget starts at {tgt['ti']} but the previous pulse is only down at {lo}",
                           "retarget-before-fall")
